@@ -540,7 +540,7 @@ void judgeAssign(const AssignSpec &a, const Snap &pre, const Snap &post, std::ve
 // it); every other lookup is then compared with items(id). judged=false: disagreements are only counted (the statement
 // speaks about lookups after assign*).
 std::string kindOfKey(const std::string &k) { return k.substr(0, k.find(':')); }
-void judgeLookups(const AnnotatorPtr &ann, const ModelPtr &cur, const Labels &L, bool judged, const std::string &situation, std::vector<Viol> &out)
+void judgeLookups(const AnnotatorPtr &ann, const ModelPtr &cur, const Labels &L, bool judged, const std::string &situation, std::vector<Viol> &out, bool fullBattery = true)
 {
     Snap t = snapshot(cur, L);
     auto counts = t.idCounts();
@@ -596,6 +596,9 @@ void judgeLookups(const AnnotatorPtr &ann, const ModelPtr &cur, const Labels &L,
         bool inIds = std::find(ids.begin(), ids.end(), id) != ids.end(), inDup = std::find(dup.begin(), dup.end(), id) != dup.end();
         if (inIds != (n > 0)) bad("ids()-inconsistent-with-items(id)", {{"id", id}, {"in-ids", inIds}, {"items", n}});
         if (inDup != (n > 1)) bad("duplicateIds()-inconsistent-with-items(id)", {{"id", id}, {"in-duplicateIds", inDup}, {"items", n}});
+        // reduced battery (preids, single-item assignments): the index itself is compared in full (ids, duplicateIds, items,
+        // itemCount, isUnique per id); item(id) / typed getters / indexed forms only for ids that are listed exactly once
+        if (!fullBattery && n != 1) continue;
         auto one = ann->item(id);
         size_t issuesAfterItem = ann->issueCount();
         check("item");
@@ -625,7 +628,7 @@ void judgeLookups(const AnnotatorPtr &ann, const ModelPtr &cur, const Labels &L,
             if (d1 != "undefined") bad(n == 0 ? "item(id)-returns-an-object-although-items(id)-is-empty" : "item(id)-returns-an-object-although-items(id)-has-several", {{"id", id}, {"item", d1}});
             if (issuesAfterItem == 0) out.push_back({std::string("C15:unexplained-failure:annotator:item(id):") + (n == 0 ? "unknown-id" : "duplicated-id"), {{"id", id}}});
         }
-        for (size_t i = 0; i <= n; ++i) {
+        for (size_t i = 0; i <= n && fullBattery; ++i) {
             auto x = ann->item(id, i);
             size_t ni = ann->issueCount();
             check("item(id,index)");
@@ -771,6 +774,8 @@ struct AnnWorld
             Variable::setEquivalenceConnectionId(u.v0, u.v1, "b4da57");
             u.r0->setTestValueId("a");
             u.is0->setId("b4da58");
+            u.c4->setId("a");       // below the imported component
+            u.v3->setId("b4da59");
         }
         u.ann->setModel(u.m0);
         cur = 0;
@@ -1081,20 +1086,22 @@ struct PreCase
 uint64_t preCount()
 {
     uint64_t n = Universe::pristineKeys().size(), total = 0;
-    for (int k = 0; k <= preK(); ++k) { uint64_t c = choose(n, k); for (int j = 0; j < k; ++j) c *= menu().size(); total += c; }
-    return total * 3 * NASSIGN;
+    for (int k = 0; k <= preK(); ++k) { uint64_t c = choose(n, k); for (int j = 0; j < k; ++j) c *= menu().size(); total += c * (k <= 1 ? 3 : 1); }
+    return total * NASSIGN;
 }
 PreCase preDecode(uint64_t i)
 {
     PreCase pc;
     Radix r(i);
     pc.assign = int(r.take(NASSIGN));
-    pc.background = int(r.take(3));
+    pc.background = 0;
     uint64_t rest = r.v, n = Universe::pristineKeys().size();
     for (int k = 0; k <= preK(); ++k) {
-        uint64_t c = choose(n, k), vals = 1;
+        uint64_t c = choose(n, k), vals = 1, nbg = k <= 1 ? 3 : 1; // two placed ids: only on the id-less background (cost)
         for (int j = 0; j < k; ++j) vals *= menu().size();
-        if (rest < c * vals) {
+        if (rest < c * vals * nbg) {
+            pc.background = int(rest % nbg);
+            rest /= nbg;
             uint64_t comb = rest / vals, vv = rest % vals;
             // unrank the combination (lexicographic)
             std::vector<int> cs;
@@ -1110,7 +1117,7 @@ PreCase preDecode(uint64_t i)
             for (int j = 0; j < k; ++j) { pc.values.push_back(int(vv % menu().size())); vv /= menu().size(); }
             return pc;
         }
-        rest -= c * vals;
+        rest -= c * vals * nbg;
     }
     return pc;
 }
@@ -1168,7 +1175,7 @@ void preRun(uint64_t i, Ctx &ctx)
         else if (c && c->id != id) out.push_back({"assign:" + label + ":returned-id-is-not-the-id-of-the-item:" + sit, {{"returned", id}, {"carried", c->id}}});
     }
     ctx.logger(u.ann, "annotator");
-    judgeLookups(u.ann, u.m0, u.L, true, sit, out);
+    judgeLookups(u.ann, u.m0, u.L, true, sit, out, pc.assign < 17);
     ++ctx.judged;
     size_t withId = 0, dupl = 0;
     for (auto &kv : pre.idCounts()) { withId += size_t(kv.second); if (kv.second > 1) ++dupl; }
@@ -1256,7 +1263,7 @@ int main(int argc, char **argv)
     std::vector<Family> fs = {
         Family {"preids", preCount, preRun, preShow},
         Family {"lookupindex", lookupIndexCount, lookupIndexRun, lookupIndexShow},
-        annFamily<AnnWorld<0, 0>>("annotator-full-noids", q3, t3),
+        annFamily<AnnWorld<0, 0>>("annotator-full-noids", q2, t3),
         annFamily<AnnWorld<1, 0>>("annotator-full-mixedids", q2, t3),
         annFamily<AnnWorld<0, 1>>("annotator-core-noids", q3, t4),
         annFamily<AnnWorld<1, 1>>("annotator-core-mixedids", q3, t4),
